@@ -1058,6 +1058,11 @@ class Global(Opcode):
 
     @staticmethod
     def create(module: str, attr: str) -> "Global":
+        for part in (module, attr):
+            # GLOBAL stores both names as newline-terminated lines and they are kept here joined
+            # by one space: a name containing either would silently become a different global
+            if " " in part or "\n" in part:
+                raise ValueError(f"GLOBAL cannot represent the name {part!r}")
         return Global(f"{module} {attr}")
 
     @property
